@@ -76,6 +76,12 @@ func HC03_Query() {
 	if vChoice("registered", 2) == 1 {
 		cf = x.w.Cache().Register(b.f)
 		flt = &cf
+		for i := 0; i < x.n; i++ {
+			if x.alive[i] {
+				m := x.w.Mask(x.h[i])
+				vAssert(cf.Matches(&m) == b.f.Matches(&m), "a registered filter matches like the filter it wraps")
+			}
+		}
 	}
 	x.checkQuery(flt, f, t)
 	q := x.w.Query(flt)
